@@ -336,6 +336,44 @@ async def end_to_end(chk, rng, n):
                 break
 
 
+SPEC_TYPE_CODES = {
+    "DECIMAL": 0, "TINY": 1, "SHORT": 2, "LONG": 3, "FLOAT": 4, "DOUBLE": 5, "NULL": 6, "TIMESTAMP": 7, "LONGLONG": 8, "INT24": 9, "DATE": 10,
+    "TIME": 11, "DATETIME": 12, "YEAR": 13, "NEWDATE": 14, "VARCHAR": 15, "BIT": 16, "TIMESTAMP2": 17, "DATETIME2": 18, "TIME2": 19,
+    "TYPED_ARRAY": 20, "INVALID": 243, "BOOL": 244, "JSON": 245, "NEWDECIMAL": 246, "ENUM": 247, "SET": 248, "TINY_BLOB": 249,
+    "MEDIUM_BLOB": 250, "LONG_BLOB": 251, "BLOB": 252, "VAR_STRING": 253, "STRING": 254, "GEOMETRY": 255,
+}
+
+
+async def type_codes(chk):
+    """the column definition of a column declared with ColumnType.X announces the protocol's code for X (reference table
+    from the MySQL protocol documentation, not from the code under test)"""
+    from lib import Peer, RecSession, mkserver, decode_resultset
+    from mysql_mimic import ResultColumn
+    from mysql_mimic.types import ColumnType as CT
+    for name, code in SPEC_TYPE_CODES.items():
+        m = getattr(CT, name, None)
+        if m is None or int(m) != code or m.name != name:
+            chk.fail("ColumnType member does not carry the protocol's code", dict(member=name), dict(code=None if m is None else int(m), canonical_name=getattr(m, "name", None), protocol=code))
+    members = [m for m in CT]
+    sess = RecSession(behaviour=lambda se, e, sql, at: ([], [ResultColumn(m.name, m) for m in members]))
+    srv = mkserver([sess])
+    a = Peer(srv)
+    await a.login()
+    out = await a.cmd(b"\x03select a from t", n=80)
+    try:
+        rs = decode_resultset([p for _, p in out], a.caps)
+        for m, cd in zip(members, rs["cols"]):
+            chk.case(("type-code", m.name))
+            want = SPEC_TYPE_CODES.get(m.name)
+            if want is None:
+                chk.fail("ColumnType member without a protocol code in the reference table", dict(member=m.name), None)
+            elif cd["type"] != want:
+                chk.fail("column definition announces the wrong protocol type code", dict(column_type=m.name), dict(announced=cd["type"], protocol=want))
+    except Exception as e:  # noqa
+        chk.fail("result set with one column per ColumnType member is not decodable", dict(members=len(members)), repr(e)[:300])
+    await a.finish()
+
+
 def main():
     chk = Check("C05", sys.argv[1:])
     chk.rule = ("typed random rows (0..20 columns incl. 6/7/8/14/15/16, NULL patterns, per-type boundaries, strings of "
@@ -355,6 +393,7 @@ def main():
         lines.extend(l)
         impl.extend(i)
         await end_to_end(chk, rng, 150 if not T_ else 2500)
+        await type_codes(chk)
 
     asyncio.run(go())
     model = drive(lines)
